@@ -87,8 +87,13 @@ def run(tier, seed):
         cf, kf = os.path.join(tmp, "c.pem"), os.path.join(tmp, "k.pem")
         open(cf, "wb").write(cert); open(kf, "wb").write(key)
         import io, contextlib
-        with contextlib.redirect_stdout(io.StringIO()):
+        _buf = io.StringIO()
+        with contextlib.redirect_stdout(_buf):
             self_signed = srv._create_self_signed_context(request_client_cert=False)
+        import re as _re
+        for _f in _re.findall(r"(?:Certificate|Key): (\S+)", _buf.getvalue()):
+            try: os.unlink(_f)
+            except OSError: pass
         servers = {"stdlib-supplied": create_server_context(cf, kf), "stdlib-selfsigned": self_signed}
         clients = {"client-tofu": create_client_context(verify_mode=ssl.CERT_NONE, check_hostname=False),
                    "client-ca": create_client_context(verify_mode=ssl.CERT_REQUIRED, check_hostname=True)}
@@ -166,9 +171,93 @@ def run(tier, seed):
             if made or invoked or looks:
                 res.violations.append({"clause": "plaintext-reached-the-protocol", "signature": "C20:plaintext:" + b,
                                        "case": {"backend": b, "bytes": d.hex()[:120]}, "trace": {"inner_protocol_created": made, "handler_invoked": invoked, "gemini_like_reply": looks}})
+        live_servers(res, tmp, cf, kf)
     finally:
         shutil.rmtree(tmp, ignore_errors=True)
     return res
+
+def live_servers(res, tmp, cf, kf):
+    """start_server() itself, in its four TLS configurations, on a loopback port: a TLS client must be served, a client capped at
+    TLS 1.1 (security level 0) must be refused, and plaintext must get no Gemini response"""
+    import socket, io, contextlib, re
+    from pathlib import Path
+    from nauyaca.server.config import ServerConfig
+    from nauyaca.server.server import start_server
+    root = os.path.join(tmp, "docroot"); os.makedirs(root, exist_ok=True)
+    open(os.path.join(root, "index.gmi"), "w").write("# live\n")
+    leftovers = []
+    async def probe(port):
+        out = {}
+        # 1. proper TLS client
+        cctx = ssl.SSLContext(ssl.PROTOCOL_TLS_CLIENT); cctx.check_hostname = False; cctx.verify_mode = ssl.CERT_NONE
+        try:
+            r, w = await asyncio.wait_for(asyncio.open_connection("127.0.0.1", port, ssl=cctx), 5)
+            w.write(b"gemini://localhost/\r\n"); await w.drain()
+            data = await asyncio.wait_for(r.read(200), 5)
+            out["tls"] = (w.get_extra_info("ssl_object").version(), data[:2])
+            w.close()
+        except Exception as e:
+            out["tls"] = ("error", type(e).__name__)
+        # 2. old TLS
+        octx = permissive_std(False, "1.1")
+        try:
+            r, w = await asyncio.wait_for(asyncio.open_connection("127.0.0.1", port, ssl=octx), 5)
+            out["old"] = w.get_extra_info("ssl_object").version(); w.close()
+        except Exception as e:
+            out["old"] = None
+        # 3. plaintext
+        try:
+            r, w = await asyncio.wait_for(asyncio.open_connection("127.0.0.1", port), 5)
+            w.write(b"gemini://localhost/\r\n"); await w.drain()
+            try: data = await asyncio.wait_for(r.read(200), 1.5)
+            except asyncio.TimeoutError: data = b""
+            out["plain"] = data
+            w.close()
+        except Exception as e:
+            out["plain"] = b""
+        return out
+    async def go():
+        results = []
+        for supplied in (True, False):
+            for client_cert in (False, True):
+                s = socket.socket(); s.bind(("127.0.0.1", 0)); port = s.getsockname()[1]; s.close()
+                cfg = ServerConfig(host="127.0.0.1", port=port, document_root=root, certfile=cf if supplied else None, keyfile=kf if supplied else None,
+                                   require_client_cert=client_cert)
+                buf = io.StringIO()
+                with contextlib.redirect_stdout(buf):
+                    task = asyncio.ensure_future(start_server(cfg, enable_rate_limiting=False, log_level="CRITICAL"))
+                    for _ in range(100):
+                        await asyncio.sleep(0.05)
+                        if task.done(): break
+                        try:
+                            c = socket.create_connection(("127.0.0.1", port), timeout=0.2); c.close(); break
+                        except OSError: pass
+                    out = await probe(port) if not task.done() else {"startup": repr(task.exception())}
+                    task.cancel()
+                    try: await task
+                    except BaseException: pass
+                leftovers.extend(re.findall(r"(?:Certificate|Key): (\S+)", buf.getvalue()))
+                results.append(((supplied, client_cert), out))
+        return results
+    try:
+        results = asyncio.run(go())
+    finally:
+        for f in leftovers:
+            try: os.unlink(f)
+            except OSError: pass
+        import logging; logging.disable(logging.CRITICAL)
+    for (supplied, client_cert), out in results:
+        res.evaluations += 1; res.nontriv(("live", supplied, client_cert)); res.count("live:supplied=%s:clientcert=%s" % (supplied, client_cert))
+        case = {"certificate": "supplied" if supplied else "auto-generated", "client_certificates_requested": client_cert}
+        if "startup" in out:
+            res.disagreements.append({"driver": "live-start_server", "case": case, "model": "starts", "impl": out["startup"]}); continue
+        plain = out["plain"]
+        if len(plain) >= 3 and plain[:2].isdigit() and plain[2:3] == b" ":
+            res.violations.append({"clause": "plaintext-answered", "signature": "C20:live-plaintext", "case": case, "trace": {"reply": plain[:80].decode("latin-1")}})
+        if out["old"] is not None:
+            res.violations.append({"clause": "handshake-below-TLS1.2-completed", "signature": "C20:live-old", "case": case, "trace": {"negotiated": out["old"]}})
+        if out["tls"][0] not in ("TLSv1.2", "TLSv1.3"):
+            res.disagreements.append({"driver": "live-start_server", "case": case, "model": "serves TLS >= 1.2", "impl": str(out["tls"])})
 
 def std_pair_hostname(server_ctx, client_ctx):
     sin, sout, cin, cout = ssl.MemoryBIO(), ssl.MemoryBIO(), ssl.MemoryBIO(), ssl.MemoryBIO()
